@@ -51,6 +51,28 @@ def rid(r):
     return r if isinstance(r, str) else [str(x) for x in r]
 
 
+# leaf defaults that are not ints travel as integer codes (the model only compares defaults):
+# the kind of the value (int / float / str) is part of the code, 7.0 is not 7
+DFLT_CODES = [(0.5, 10000001), (7.0, 10000002), (-1.5, 10000003), ("e", 20000001), ("", 20000002)]
+
+
+def dcode(v):
+    if isinstance(v, bool):
+        return 30000001 + int(v)
+    if isinstance(v, int):
+        return v
+    for x, c in DFLT_CODES:
+        if type(x) is type(v) and x == v:
+            return c
+    if isinstance(v, tuple):
+        return {"t": [dcode(ft_get(x)) for x in v]}
+    return {"obj": type(v).__name__, "repr": repr(v)[:40]}
+
+
+def ft_get(x):
+    return H.ft().Payload.get(x)
+
+
 def dval(p):
     ft = H.ft()
     v = ft.Payload.get(p)
@@ -58,7 +80,7 @@ def dval(p):
         return "Fiber" if issubclass(v, ft.Fiber) else v.__name__
     if isinstance(v, ft.Fiber):
         return "FiberObj"
-    return H._val(v)
+    return dcode(v)
 
 
 def levels_of(root):
@@ -97,7 +119,8 @@ def obs_tensor(t):
 def build_base(case):
     ft = H.ft()
     d, dflt = case["d"], case["dflt"]
-    f = H.build_fiber(case["t"], d, dflt)
+    # "fdflt": the fibers are built with a default of their own, the tensor's replaces it on joining
+    f = H.build_fiber(case["t"], d, case["fdflt"] if "fdflt" in case else dflt)
     return ft.Tensor.fromFiber(rank_ids=list(case["ids"]), fiber=f, shape=case["shape"], default=dflt)
 
 
@@ -158,13 +181,39 @@ def run_xf(case):
             r.setFormat(f)
     t.setMutable(bool(case.get("mut", False)))
     impl = {"src": obs_tensor(t)}
+    side = {}
     try:
         r = apply_op(t, case["op"])
         impl["res"] = obs_tensor(r)
+        # the operand reports what it reported before
+        side["operand_unchanged"] = obs_tensor(t) == impl["src"]
+        # the same transform of the same operand once more: the same report
+        r2 = apply_op(t, case["op"])
+        side["repeatable"] = obs_tensor(r2) == impl["res"]
+        # getShape(rank_id) / getShape([ids]) agree with the full list
+        try:
+            ids = r.getRankIds()
+            full = r.getShape()
+            side["shape_queries"] = all(r.getShape([i]) == [full[n]] for n, i in enumerate(ids)) and \
+                all(r.getShape(i) == full[n] for n, i in enumerate(ids) if isinstance(i, str)) and \
+                r.getShape(list(reversed(ids))) == list(reversed(full))
+        except Exception:
+            side["shape_queries"] = False
+        # the result's attributes are its own: changing them leaves the operand alone
+        try:
+            for rk in r.ranks:
+                rk.setFormat("U" if rk.getFormat() == "C" else "C")
+            r.setMutable(not r.isMutable())
+            r.setDefault(12345)
+            r.setShape([s_ + 1 if isinstance(s_, int) else s_ for s_ in r.getShape()])
+            side["attrs_not_shared"] = obs_tensor(t) == impl["src"]
+        except Exception:
+            side["attrs_not_shared"] = False
     except Exception as e:
         impl["res"] = {"err": H.err_class(e)}
         case["implerr"] = H.err_class(e)
     case["impl"] = impl
+    case["side"] = side
     return case
 
 
@@ -180,7 +229,8 @@ def _nest(tree, depth, dims, dflt):
 
 def run_ctor(case):
     ft = H.ft()
-    how, d, dflt, ids = case["how"], case["d"], case["dflt"], list(case["ids"])
+    how, d, dflt = case["how"], case["d"], case["dflt"]
+    ids = None if case.get("ids") is None else list(case["ids"])
     shape = case["shape"]
     try:
         if how == "fromFiber":
@@ -214,15 +264,23 @@ def _mk_fiber(spec):
         kw["shape"] = spec["shape"]
     if spec.get("act") is not None:
         kw["active_range"] = tuple(spec["act"])
+    if spec.get("dflt") is not None:
+        kw["default"] = spec["dflt"]
     f = ft.Fiber(list(spec["c"]), [1 + (c % 3) for c in spec["c"]], **kw)
     if spec.get("id") is not None:
         f.getRankAttrs().setId(spec["id"])
+    if spec.get("fmt") is not None and not spec.get("owned"):
+        f.getRankAttrs().setFormat(spec["fmt"])
     if spec.get("owned"):
         t = ft.Tensor.fromFiber(rank_ids=[spec.get("id") or "M"], fiber=f, shape=None if spec.get("shape") is None
                                 else [spec["shape"]])
         f = t.getRoot()
         if spec.get("act") is not None:
             f.setActive(tuple(spec["act"]))
+        if spec.get("fmt") is not None:
+            t.setFormat(t.getRankIds()[0], spec["fmt"])
+        if spec.get("dflt") is not None:
+            t.setDefault(spec["dflt"])
         return f, t
     return f, None
 
@@ -238,7 +296,27 @@ def run_lazy(case):
     b, tb = _mk_fiber(case["b"])
     op = case["op"]
     n = op["name"]
+    # a lazy fiber as first operand: the result of an earlier operator on (a, b)
+    pre = case.get("a_pre")
+    if pre == "and":
+        a = a & b
+    elif pre == "sub":
+        a = a - b
+    elif pre == "prune":
+        a = a.prune(lambda i, c, p: True)
+    elif pre == "project":
+        a = a.project(lambda c: c + 1, rank_id="P")
+    elif pre == "or":
+        a = a | b
     impl = {"a": _fattr(a), "b": _fattr(b)}
+    try:
+        if pre is not None:
+            impl["a_coords"] = [sx(c) for c, _ in a]
+        if not isinstance(ft.Payload.get(a.getDefault()), tuple):     # else: no scalar default to follow
+            impl["a_dflt"] = dval(a.getDefault())
+        impl["b_dflt"] = dval(b.getDefault())
+    except Exception:
+        pass
     try:
         if n == "and":
             z = a & b
@@ -254,6 +332,8 @@ def run_lazy(case):
             z = a.prune(lambda i, c, p: c % 2 == 0)
         elif n == "intersection":
             z = ft.Fiber.intersection(a, b, b)
+        elif n == "intersection-lf":
+            z = ft.Fiber.intersection(a, b, b, style="leader-follower")
         elif n == "union":
             z = ft.Fiber.union(a, b, b)
         elif n == "coiterShape":
@@ -275,7 +355,13 @@ def run_lazy(case):
         res = _fattr(z)
         res["lazy"] = bool(z.isLazy())
         try:
+            res["dflt"] = dval(z.getDefault())
+        except Exception:
+            res["dflt"] = None
+        try:
             res["coords"] = [sx(c) for c, _ in z]
+            if n != "populate":         # iterating a populate inserts into the destination
+                res["twice_same"] = [sx(c) for c, _ in z] == res["coords"]
         except Exception as e:
             res["coords"] = None
             res["iter_err"] = H.err_class(e)
@@ -353,9 +439,37 @@ def run_join(case):
     return case
 
 
+def run_mut(case):
+    """a tensor is built, then grown IN PLACE at a point that is absent (getPayloadRef + assignment,
+    or Fiber.append at the root); observed before and after"""
+    t = build_base(case)
+    impl = {"src": obs_tensor(t)}
+    try:
+        root = t.getRoot()
+        pt = list(case["point"])
+        if case["how"] == "ref":
+            ref = root.getPayloadRef(*pt)
+            ref <<= case.get("value", 5)
+        else:
+            ft = H.ft()
+            val = case.get("value", 5)
+            for _ in range(case["d"] - 1):
+                val = ft.Fiber([pt[-1]], [val])
+                pt = pt[:-1]
+            root.append(pt[0], val)
+        impl["res"] = obs_tensor(t)
+    except Exception as e:
+        impl["res"] = {"err": H.err_class(e)}
+        case["implerr"] = H.err_class(e)
+    case["impl"] = impl
+    return case
+
+
 def run(case):
     warnings.simplefilter("ignore")
     k = case["kind"]
+    if k == "mut":
+        return run_mut(case)
     if k == "xf":
         return run_xf(case)
     if k == "ctor":
@@ -575,6 +689,55 @@ def _small_scope(tier):
                 for declared in (False, True):
                     yield _xf(1, t, ids, _cover(t, 1) if declared else None, 0, None, False,
                               {"name": "swizzle", "order": list(order)}, pre)
+    # fibers built with a default of their own (0) inside a tensor with another one; float / str
+    # defaults; coordinates 9 / 10 / 100 (numeric, not string order); transforms of a tensor that
+    # already holds tuple coordinates from an earlier flatten
+    wide = {1: [[9, 1], [10, 2], [100, 3]], 2: [[9, [[10, 1], [100, 2]]], [10, [[9, 3]]], [100, [[2, 4], [11, 5]]]]}
+    for d in (1, 2, 3):
+        ids = IDS[:d]
+        ops = _ops_for(d, ids)
+        for dflt, fd in ((7, 0), (0, 7), (0.5, 0.5), (7.0, 0), ("e", "e"), (-1.5, 0)):
+            for declared in (False, True):
+                for op in ops:
+                    i += 1
+                    if d == 3 and (i % 4):
+                        continue
+                    t = TREES[d][1 + i % (len(TREES[d]) - 1)]
+                    c = _xf(d, t, ids, _cover(t, d) if declared else None, dflt, None, bool(i & 1), op)
+                    c["fdflt"] = fd
+                    yield c
+        if d in wide:
+            t = wide[d]
+            for declared in (False, True):
+                for op in ops:
+                    yield _xf(d, t, ids, _cover(t, d) if declared else None, 0, None, False, op)
+                yield {"prop": PROP, "kind": "ctor", "how": "fromFiber", "d": d, "t": t, "ids": ids,
+                       "shape": _cover(t, d) if declared else None, "dflt": 0}
+    for t in TREES[3][1:]:
+        for declared in (False, True):
+            sh = _cover(t, 3) if declared else None
+            for st in ("tuple", "pair"):
+                for k, rest in ((0, [["M", "K"], "N"]), (1, ["M", ["K", "N"]])):
+                    pre = [{"name": "flatten", "k": k, "levels": 1, "style": st}]
+                    for order in itertools.permutations(rest):
+                        yield _xf(3, t, IDS[:3], sh, 7, None, True, {"name": "swizzle", "order": list(order)}, pre)
+                    yield _xf(3, t, IDS[:3], sh, 7, None, True, {"name": "swap", "k": 0}, pre)
+                    yield _xf(3, t, IDS[:3], sh, 0, None, False, {"name": "updp", "k": 1 - k}, pre)
+                    yield _xf(3, t, IDS[:3], sh, 0, None, False,
+                              {"name": "split", "kind": "uniform", "step": 2, "k": 1 - k, "depthkw": True}, pre)
+                    yield _xf(3, t, IDS[:3], sh, 0, None, False,
+                              {"name": "split", "kind": "equal", "step": 1, "k": k, "depthkw": True}, pre)
+    # constructors: rank ids synthesized ("R1", "R0"), float / str defaults
+    for d in (1, 2, 3):
+        for t in TREES[d][1:3]:
+            for shape in (None, _cover(t, d)):
+                yield {"prop": PROP, "kind": "ctor", "how": "fromFiber", "d": d, "t": t, "ids": None,
+                       "shape": shape, "dflt": 0}
+            for dv in (0.5, 7.0, "e"):
+                yield {"prop": PROP, "kind": "ctor", "how": "fromFiber", "d": d, "t": t, "ids": IDS[:d],
+                       "shape": None, "dflt": dv, "dflt_code": dcode(dv)}
+                yield {"prop": PROP, "kind": "ctor", "how": "empty", "d": d, "t": [], "ids": IDS[:d],
+                       "shape": [3, 4, 5][:d], "dflt": dv, "dflt_code": dcode(dv)}
     # four and five ranks with a DISTINCT declared size per rank: flatten / merge at every depth x
     # levels (up to levels = 3 / 4) x style, and unflatten after the tuple / pair flattens -- shape and
     # coordinates must follow the same re-arrangement
@@ -623,6 +786,20 @@ def _small_scope(tier):
                 for via in ("fromFiber", "setRoot"):
                     yield {"prop": PROP, "kind": "join", "d": d, "t": t, "ids": ids, "shape": None, "dflt": 0,
                            "via": via, "own": own}
+    # a constructed tensor grown in place at an absent point: inside and beyond its extent
+    for d in (1, 2):
+        ids = IDS[:d]
+        for t in TREES[d][1:]:
+            cov = _cover(t, d)
+            for declared in (False, True):
+                sh = [x + 6 for x in cov] if declared else None
+                for how in (("ref", "append") if d == 1 else ("ref",)):   # appending a fiber is C02's business
+                    for pt in ([cov[0] + 3] + [1] * (d - 1), [cov[0] + 3] + [cov[-1] + 2] * (d - 1)):
+                        yield {"prop": PROP, "kind": "mut", "d": d, "t": t, "ids": ids, "shape": sh, "dflt": 0,
+                               "how": how, "point": pt}
+                if d == 2:      # an absent point inside the extent, and a wider second-rank fiber
+                    yield {"prop": PROP, "kind": "mut", "d": d, "t": t, "ids": ids, "shape": sh, "dflt": 0,
+                           "how": "ref", "point": [t[0][0], cov[1] + 2]}
     # lazy results
     fa = [{"c": [1, 3], "shape": 6, "act": [1, 5], "id": "A"}, {"c": [0, 2, 4], "shape": None, "act": None, "id": None},
           {"c": [2, 3], "shape": 5, "act": None, "id": "A"}, {"c": [], "shape": None, "act": None, "id": "A"},
@@ -638,12 +815,37 @@ def _small_scope(tier):
         for iv in (None, [2, 9]):
             for r in (None, "Q"):
                 lops.append({"name": "project", "k": k, "m": m, "interval": iv, "rank_id": r})
+    lops.append({"name": "intersection-lf"})
     for a in fa:
         for b in fb:
             for op in lops:
-                if op["name"] == "populate" and a["c"] and b["c"] and False:
+                yield {"prop": PROP, "kind": "lazy", "a": a, "b": b, "op": op}
+    # format "U" on either operand (own attributes of a free fiber / Tensor.setFormat of an owned one),
+    # declared and estimated extents, restricted range; non-zero / float / str defaults
+    fu = [{"c": [1, 3], "shape": 6, "act": [1, 5], "id": "A", "fmt": "U"},
+          {"c": [0, 2, 4], "shape": None, "act": None, "id": "A", "fmt": "U", "dflt": 7},
+          {"c": [2, 3], "shape": 5, "act": [1, 4], "id": "M", "owned": True, "fmt": "U"},
+          {"c": [1, 3], "shape": None, "act": None, "id": "M", "owned": True, "fmt": "U", "dflt": 0.5},
+          {"c": [1, 4], "shape": 6, "act": None, "id": "A", "dflt": "e"}]
+    fbu = [{"c": [3, 4], "shape": 6, "act": None, "id": "B", "fmt": "U"},
+           {"c": [0, 3], "shape": None, "act": [0, 5], "id": "N", "owned": True, "fmt": "U", "dflt": 7},
+           {"c": [3, 8], "shape": 9, "act": None, "id": "B", "dflt": 7}]
+    for a in fu:
+        for b in fbu + fb[:1]:
+            for op in lops:
+                if op["name"] == "project" and (op["interval"] is not None) != (op["rank_id"] is not None):
                     continue
                 yield {"prop": PROP, "kind": "lazy", "a": a, "b": b, "op": op}
+    # a LAZY fiber as first operand (result of an earlier &, -, prune, project, |)
+    for pre in ("and", "sub", "prune", "project", "or"):
+        for a in fa[:3] + fu[:2]:
+            for b in fb[:1] + fb[2:3] + fbu[:1]:
+                for op in lops:
+                    if op["name"] in ("populate", "coiterShape", "coiterActiveShape", "coiterRangeShape"):
+                        continue        # these need an eager first operand
+                    if op["name"] == "project" and (op["k"] < 0 or op["interval"] is not None):
+                        continue        # a lazy fiber cannot be reversed
+                    yield {"prop": PROP, "kind": "lazy", "a": a, "b": b, "op": op, "a_pre": pre}
     # constructors from nests that are ragged ACROSS parents (sibling lists have equal length, cousin
     # lists differ): the reported shape is the per-level maximum
     ragged = [
@@ -748,7 +950,13 @@ def _random(seed, tier):
         if op["name"] == "updc" and declared:
             # keep the moved coordinates inside the declared shape (the caller's obligation)
             shape = [s + 1 for s in shape]
-        yield _xf(d, t, ids, shape, dflt, fmts, mut, op)
+        c = _xf(d, t, ids, shape, dflt, fmts, mut, op)
+        r2 = rng.random()
+        if r2 < 0.15:
+            c["fdflt"] = rng.choice([0, 7, 3])
+        elif r2 < 0.25:
+            c["dflt"] = rng.choice([0.5, 7.0, "e"])
+        yield c
 
 
 def gen(seed, tier):
@@ -773,7 +981,8 @@ def _why(verdict):
 CLASSES = [  # priority order: a failing case is filed under the first class that explains one of its clauses
     "split:unaligned-range:upper-outside-active",
     "merge:absolute:active-range-of-upper-rank", "merge:relative:shape-and-active-range-of-upper-rank",
-    "flatten:estimated:shape-from-last-tuple-coordinate", "lazy:project:rank-id-unknown"]
+    "flatten:estimated:shape-from-last-tuple-coordinate", "lazy:project:rank-id-unknown",
+    "mutate:estimated-shape-stale-after-growth"]
 
 
 def explain(case, tags, clause):
@@ -784,6 +993,10 @@ def explain(case, tags, clause):
         op = case["op"]
         if op["name"] == "project" and clause == "id" and op.get("rank_id") is None:
             return "lazy:project:rank-id-unknown"
+        return None
+    if kind == "mut":
+        if "src-est" in tags and clause.startswith(("shape@", "active@")):
+            return "mutate:estimated-shape-stale-after-growth"
         return None
     if kind != "xf":
         return None
@@ -813,6 +1026,8 @@ def signature(case, verdict, failed):
     why = _why(verdict)
     tags = set(verdict.get("tags", []))
     name = case["op"]["name"] if kind in ("xf", "lazy") else case.get("how", case.get("via", ""))
+    if kind == "mut":
+        name = "grow-" + case["how"]
     generic = f"{kind}:{name}:{'+'.join(sorted(why)) or '/'.join(sorted(failed))}"
     if failed != ["spec"] or not verdict.get("agree") or not why:
         return generic
